@@ -2,6 +2,12 @@
 """tools/silence.py <tier> <seed> [<seed> ...] — runs every claimed check at the given seeds on the unchanged tree and
 reports exit codes, wall time and KNOWN-FINDING / VIOLATION / INFRA lines (a check must stay silent: exit 0)."""
 import json, os, subprocess, sys, time
+# the checks run in a private copy of /verif (against /repo itself), so that /verif can be edited meanwhile
+import shutil
+COPY = "/tmp/vs/verif"
+shutil.rmtree(COPY, ignore_errors=True)
+os.makedirs("/tmp/vs", exist_ok=True)
+subprocess.run(["rsync", "-a", "--exclude", ".git", "--exclude", ".build", "--exclude", "replays", "/verif/", COPY + "/"], check=True)
 tier = sys.argv[1]
 seeds = sys.argv[2:]
 man = json.load(open('/verif/MANIFEST.json'))
@@ -12,7 +18,7 @@ for seed in seeds:
         pid = c['property_id']
         t0 = time.time()
         e = dict(os.environ, VERIF_SEED=seed)
-        r = subprocess.run(['./run.sh', pid, tier], cwd='/verif', env=e, stdout=subprocess.PIPE, stderr=subprocess.STDOUT, text=True)
+        r = subprocess.run(['./run.sh', pid, tier], cwd=COPY, env=e, stdout=subprocess.PIPE, stderr=subprocess.STDOUT, text=True)
         dt = time.time() - t0
         flag = [l[:160] for l in r.stdout.splitlines() if l.startswith(('VIOLATION', 'INFRA'))]
         rows.append((seed, pid, r.returncode, round(dt, 1), flag))
@@ -21,3 +27,4 @@ for seed in seeds:
         print(seed, pid, r.returncode, round(dt, 1), flag, flush=True)
 open('/verif/notes/silence_%s.md' % tier, 'a').write("\n".join("| %s | %s | %d | %.1f | %s |" % (s, p, rc, dt, "; ".join(f)) for s, p, rc, dt, f in rows) + "\n")
 print("non-zero exits:", bad)
+shutil.rmtree(COPY, ignore_errors=True)
